@@ -13,6 +13,9 @@ import (
 
 func init() {
 	vfRegister("VfC04_mixedLeave3", VfC04_mixedLeave3)
+	vfRegister("VfC05_mixed4", VfC05_mixed4)
+	vfRegister("VfC05_handover", VfC05_handover)
+	vfRegister("VfC05_mixed5", VfC05_mixed5)
 	vfRegister("VfC04_mixedLeave4", VfC04_mixedLeave4)
 	vfRegister("VfC04_concurrent", VfC04_concurrent)
 	vfRegister("VfC05_runElection", VfC05_runElection)
@@ -371,12 +374,12 @@ func vfC04History(k int) {
 // interleave in every order (e.g. accepted operation, hand-over, stale operation).  After every
 // operation the RIB was reached iff the sender is the true primary and the stamp is its last id
 // and the highest id (computed by the harness).
-func vfC04Mixed(k int) { vfC04MixedD(k, false) }
+func vfC04Mixed(k int) { vfC04MixedD(k, false, "C04:") }
 
 // vfC04MixedD: withDisconnect adds ONE departure of a session (deleteClient, as at the end of its Modify RPC)
 // before a symbolic step; the departed session sends nothing afterwards.  A departure changes neither the
 // highest id learnt nor who holds it: what the remaining session may do is unchanged.
-func vfC04MixedD(k int, withDisconnect bool) {
+func vfC04MixedD(k int, withDisconnect bool, lp string) {
 	s := &Server{cs: map[string]*clientState{}, masterRIB: rib.New(DefaultNetworkInstanceName)}
 	for _, c := range []string{"A", "B"} {
 		s.cs[c] = &clientState{params: &clientParams{ExpectElecID: true, Persist: true}, setParams: true}
@@ -387,6 +390,8 @@ func vfC04MixedD(k int, withDisconnect bool) {
 	lastSet := map[string]bool{}
 	lastH, lastL := map[string]uint64{}, map[string]uint64{}
 	ops := 0
+	var resps []*spb.ModifyResponse
+	var respH, respL []uint64
 	gone := map[string]bool{}
 	leaveAt, leaver := -1, "A"
 	if withDisconnect {
@@ -418,17 +423,29 @@ func vfC04MixedD(k int, withDisconnect bool) {
 			if has && lastSet[x] {
 				legit = vfAnd(x == primary, vfAnd(eq128(h, l, lastH[x], lastL[x]), eq128(h, l, maxH, maxL)))
 			}
-			vfAssert(vfNHInstalled(s.masterRIB, DefaultNetworkInstanceName, idx) == legit, "C04:rib-changed-iff-sent-by-the-true-primary-with-the-highest-id")
+			vfAssert(vfNHInstalled(s.masterRIB, DefaultNetworkInstanceName, idx) == legit, lp+"rib-changed-iff-sent-by-the-true-primary-with-the-highest-id")
 			continue
 		}
 		vfAssume(vfOr(h != 0, l != 0))
-		_, err := s.runElection(x, &spb.Uint128{High: h, Low: l})
-		vfAssert(err == nil, "C04:valid-announcement-accepted")
+		resp, err := s.runElection(x, &spb.Uint128{High: h, Low: l})
+		vfAssert(err == nil, lp+"valid-announcement-accepted")
 		lastSet[x], lastH[x], lastL[x] = true, h, l
 		wins := vfOr(!has, ge128(h, l, maxH, maxL))
 		maxH, maxL = vfIte64(wins, h, maxH), vfIte64(wins, l, maxL)
 		primary = vfIteStr(wins, x, primary)
 		has = true
+		// (that the response carries the running maximum is decided per step by VfC05_runElection)
+		e := resp.GetElectionId()
+		if e != nil {
+			resps = append(resps, resp)
+			respH, respL = append(respH, e.High), append(respL, e.Low)
+		}
+	}
+	// ... and still does after the later announcements (a response is a value of its own, not a view of the
+	// server's current election state)
+	for i, r := range resps {
+		e := r.GetElectionId()
+		vfAssert(e != nil && vfAnd(e.High == respH[i], e.Low == respL[i]), lp+"response-unchanged-by-later-announcements")
 	}
 	if ops > 0 {
 		vfReach("with-operation")
@@ -437,8 +454,45 @@ func vfC04MixedD(k int, withDisconnect bool) {
 }
 
 func VfC04_mixed4() { vfC04Mixed(4) }
-func VfC04_mixedLeave3() { vfC04MixedD(3, true) }
-func VfC04_mixedLeave4() { vfC04MixedD(4, true) }
+func VfC04_mixedLeave3() { vfC04MixedD(3, true, "C04:") }
+func VfC04_mixedLeave4() { vfC04MixedD(4, true, "C04:") }
+
+// VfC05_mixed4/5: the same histories judged by C05's statement: who the primary is shows in whose operations are
+// accepted after every announcement (ties, repeats, decreases, reads of the election state in between), every
+// response carries the running maximum of its moment and keeps it.
+func VfC05_mixed4() { vfC04MixedD(4, false, "C05:") }
+
+// VfC05_handover: A announces a, A operates (the election state is READ), B announces b (any id: lower, equal -
+// the tie goes to the later announcer -, higher), then B and A each operate with their own id: the primary shows in
+// whose operation is accepted; both responses carry the running maximum and are not changed by what follows.
+func VfC05_handover() {
+	s := &Server{cs: map[string]*clientState{}, masterRIB: rib.New(DefaultNetworkInstanceName)}
+	for _, c := range []string{"A", "B"} {
+		s.cs[c] = &clientState{params: &clientParams{ExpectElecID: true, Persist: true}, setParams: true}
+	}
+	aH, aL, bH, bL := vfU64("a.hi"), vfU64("a.lo"), vfU64("b.hi"), vfU64("b.lo")
+	vfAssume(vfOr(aH != 0, aL != 0))
+	vfAssume(vfOr(bH != 0, bL != 0))
+	op := func(c string, id, idx uint64, h, l uint64) bool {
+		resCh, errCh := make(chan *spb.ModifyResponse, 8), make(chan error, 8)
+		s.doModify(c, []*spb.AFTOperation{vfNHOp(id, DefaultNetworkInstanceName, idx, &spb.Uint128{High: h, Low: l})}, resCh, errCh)
+		return vfNHInstalled(s.masterRIB, DefaultNetworkInstanceName, idx)
+	}
+	ra, err := s.runElection("A", &spb.Uint128{High: aH, Low: aL})
+	vfAssert(err == nil && ra.GetElectionId() != nil && eq128(ra.GetElectionId().GetHigh(), ra.GetElectionId().GetLow(), aH, aL), "C05:first-announcement-reported-as-current")
+	vfAssert(op("A", 1, 100, aH, aL), "C05:sole-announcer-is-primary")
+	rb, err := s.runElection("B", &spb.Uint128{High: bH, Low: bL})
+	bWins := ge128(bH, bL, aH, aL)
+	mH, mL := vfIte64(bWins, bH, aH), vfIte64(bWins, bL, aL)
+	vfAssert(err == nil && rb.GetElectionId() != nil && eq128(rb.GetElectionId().GetHigh(), rb.GetElectionId().GetLow(), mH, mL), "C05:response-carries-the-running-maximum")
+	vfAssert(op("B", 2, 200, bH, bL) == bWins, "C05:later-announcer-of-an-id-not-below-the-maximum-is-primary")
+	vfAssert(op("A", 3, 300, aH, aL) == !bWins, "C05:lower-id-never-takes-the-primary-role-away")
+	if e := ra.GetElectionId(); e != nil {
+		vfAssert(eq128(e.High, e.Low, aH, aL), "C05:response-unchanged-by-later-announcements")
+	}
+	vfReach("end")
+}
+func VfC05_mixed5() { vfC04MixedD(5, false, "C05:") }
 
 // VfC04_concurrent: two sessions announce different arbitrary ids CONCURRENTLY (every schedule with <= 2
 // pre-emptions), then each sends one operation stamped with its own id: the operation of the session with
